@@ -264,6 +264,8 @@ def run(ctx, rep):
     # the languages compared are the documented ones: literals are escaped by regex_syntax, subpatterns are spliced as flag-scoped groups
     cg.rule_literal_escape(rep, crate)
     cg.rule_subpatterns(rep, crate)
+    cg.rule_sites(rep, crate, want=('C10',))      # ... and ignore(case) tokens are compiled as the definition says (flags, Unicode mode of the literal kind)
+    cg.rule_compile_lit(rep, crate)
     cg.cg_controls(rep, ctx, [('M-C08a', rule_no_conflict_dropped)])
     from props import gen
     gen.rule_must_reject(ctx, rep, gen.configs(ctx), ['equal_priority'], floor=8)
